@@ -211,3 +211,11 @@ func TestVerif_C02DS(t *testing.T) {
 	defer rep.Write()
 	runDSProperty(t, "C02", rep, verifkit.N(150, 6000), verifkit.N(6, 100), true)
 }
+
+// C13 on the wire: window, byte accounting, once-per-connection and chain order of block requests
+// in the well-behaved-peer scenarios (also with duplicated / permuted block replies).
+func TestVerif_C13DS(t *testing.T) {
+	rep := verifkit.NewReport("C13")
+	defer rep.Write()
+	runDSProperty(t, "C13", rep, verifkit.N(300, 12000), verifkit.N(8, 200), false)
+}
